@@ -27,14 +27,19 @@ def gen(rng, tier):
     n = 160 if tier == "quick" else 5000
     for t in range(n):
         fmt = FORMATS[t % len(FORMATS)]
-        c = gtio.gen_content(rng, allow_half_missing=not fmt.startswith(".pgen"), many_alleles=0.12, medium=0.1)
+        tail = fmt.startswith(".pgen") and t % 12 in (4, 5)  # a fixed share: 17 / 33 / 34 variants read 16 or 32 at a time
+        c = gtio.gen_content(rng, allow_half_missing=not fmt.startswith(".pgen"), many_alleles=0.12, medium=1.0 if tail else 0.1)
+        if tail and len(c["variants"]) >= 17:
+            k = rng.choice([x for x in (17, 33, 34, 35) if x <= len(c["variants"])])
+            c["variants"] = c["variants"][:k]
+            c["data"] = [row[:k] for row in c["data"]]
         p = len(c["variants"])
         c["fmt"] = fmt
         c["wchunk"] = rng.choice([None, 1, 2, max(p, 1), p + 2])
         c["rchunk"] = rng.choice([None, 1, 2, max(p, 1), p + 2])
         if p > 16:
             # chunk sizes that leave a short trailing chunk (17 or 33 variants read 16 at a time, …)
-            c["rchunk"] = rng.choice([c["rchunk"], 16, 16, 32, p - 1, (p - 1) // 2 + 1])
+            c["rchunk"] = rng.choice([c["rchunk"], 16, 16, 32, p - 1, (p - 1) // 2 + 1]) if not tail else (16 if p < 33 else rng.choice([16, 32]))
             c["wchunk"] = rng.choice([c["wchunk"], 16, p - 1])
         c["reader"] = rng.choice(["Genotypes", "GenotypesVCF"]) if not fmt.startswith(".pgen") else "GenotypesPLINK"
         c["drop_phase_plane"] = rng.random() < 0.1  # a matrix without third plane: all calls phased
